@@ -5,7 +5,7 @@ from vlib import SPEC
 
 UNIT = 4  # bytes per abstract payload size unit
 
-CFG = """SPECIFICATION Spec
+CFG = """SPECIFICATION %(spec)s
 CONSTANTS
   DataIds = {%(ids)s}
   Writers = {%(writers)s}
@@ -38,14 +38,15 @@ def q(xs):
 
 
 def write_cfg(name, ids=("A", "B"), writers=("W1", "W2"), flushers=("F1",), maxw=2, policy="none", thr=2, sizes=(1,),
-              zero=False, reliable=True, faults=0, dups=1, acks=2, grants=True, conflicts=0, view=True, invs=INV_C01, gen=False):
+              zero=False, reliable=True, faults=0, dups=1, acks=2, grants=True, conflicts=0, view=True, invs=INV_C01, gen=False, mon=False):
     path = os.path.join(SPEC, name)
     with open(path, "w") as f:
         f.write(CFG % dict(ids=q(ids), writers=q(writers), flushers=q(flushers), maxw=maxw, policy=policy, thr=thr,
                            sizes=", ".join(str(s) for s in sizes), zero="TRUE" if zero else "FALSE",
                            reliable="TRUE" if reliable else "FALSE", faults=faults, dups=dups, acks=acks,
                            grants="TRUE" if grants else "FALSE", conflicts=conflicts,
-                           view="VIEW View" if view else "", invs=invs, constraint="CONSTRAINT GenPrint" if gen else ""))
+                           view=("VIEW MView" if mon else "VIEW View") if view else "", invs=invs, spec="MSpec" if mon else "Spec",
+                           constraint="CONSTRAINT GenPrint" if gen else ""))
     return name
 
 
